@@ -98,7 +98,7 @@ def check_heuristics(m, ctx, d):
         ent = f'{name}, {(x + " " + u).strip()}'
         if not r['ok'] or not r['snap']:
             ctx.violate('property', f'heuristic:raises:{name}:{u or "no unit"}', f'the run with "{ent}" fails: {str(r["error"])[:200]}',
-                        inp={'part': 'run', 'entry': ent, 'input_file': text, 'reference_file': runner.params_to_text(base)})
+                        inp={'part': 'heuristic-run', 'entry': ent, 'input_file': text})
             continue
         cls = r['snap'][comp]['__class__']
         row = rows.setdefault((cls, name), next((p for p in d['params'] if p['name'] == name and p['cls'] == cls), None) or
@@ -120,7 +120,7 @@ def check_heuristics(m, ctx, d):
             small_as_metres = name.endswith('Diameter') and m.to_unit(d, F(x), u or row['pref'], row['pref']) <= 2
             if not shown_ok and not small_as_metres:
                 ctx.violate('property', f'heuristic:echo:{name}:{u or "no unit"}', f'"{ent}" is echoed as "{l.strip()}"',
-                            inp={'part': 'run', 'entry': ent, 'input_file': text, 'reference_file': runner.params_to_text(base)},
+                            inp={'part': 'heuristic-run', 'entry': ent, 'input_file': text},
                             expected=f'{x} {u or row["pref"]}', observed=l.strip())
     bad = fw.kernel_bools(ctx, 'heuristic-corr', m.REQ, terms, open_scope='Q_scope')
     ctx.count('heuristics-on-runs', evaluations=len(terms), nontrivial_keys=[(n, u) for _, n, u, _ in descs])
@@ -382,3 +382,39 @@ def table_diffs(m, d, base, var, requested, out_cur):
                 bad.append(('table', f'{title}: column ({ub_all[cb[j]] if cb[j] is not None else "no unit"})', x.strip(), y.strip()))
             break
     return bad, changed
+
+
+# ---------------------------------------------------------------------------------------------------------------
+# replays of the parts above
+# ---------------------------------------------------------------------------------------------------------------
+
+def replay_more(m, ctx, d, inp):
+    part = inp.get('part')
+    if part == 'hip-run':
+        b, r = hip_run_many(ctx, [inp['reference_file'], inp['input_file']])
+        if not r['report']:
+            print('HIP-RA-X writes no report:', r['error']); print('property VIOLATED on this input'); return 1
+        bl, vl = [l for l in b['report'].splitlines() if not m.MASK.search(l)], [l for l in r['report'].splitlines() if not m.MASK.search(l)]
+        bad = 0
+        for x, y in zip(bl, vl):
+            mx, my = m.LINE.match(x), m.LINE.match(y)
+            if x != y and not (mx and my and m.same_quantity(d, mx['num'], mx['unit'], my['num'], my['unit'])):
+                print('  reference:', x.strip(), '| this input:', y.strip())
+                bad += 1
+        print('property', 'VIOLATED' if bad else 'holds', 'on this input')
+        return 1 if bad else 0
+    if part == 'heuristic-run':
+        r = runner.run_many(ctx, [inp['input_file']])[0]
+        name, _, txt = inp['entry'].partition(', ')
+        x, _, u = txt.partition(' ')
+        if not r['ok']:
+            print('run fails:', r['error']); print('property VIOLATED on this input'); return 1
+        row = next(p for p in d['params'] if p['name'] == name)
+        ml = [l for l in r['report'].splitlines() if re.match(r'\s*' + HEUR[name][3] + r'\s*:', l)]
+        mm = m.LINE.match(ml[0]) if ml else None
+        ok = bool(mm) and m.same_quantity(d, x, u or row['pref'], mm['num'], (mm['unit'] or '').strip())
+        print('entry:', inp['entry'], '| echoed:', ml[0].strip() if ml else None)
+        print('property', 'holds' if ok else 'VIOLATED', 'on this input')
+        return 0 if ok else 1
+    print('no replay for part', part, '(correspondence entries are re-evaluated by ./check C06 --tier quick)')
+    return 1
